@@ -99,12 +99,12 @@ doc = head + '\n\n' + section4() + '\n' + tail
 doc = doc.replace('<!--COUNTS-->', counts())
 doc = re.sub(r'<!--MUTANTS:round=(\w+)-->', lambda m: mutants(m.group(1)), doc)
 doc = doc.replace('<!--DEFECTS-REINTRODUCED-->', reintroduced())
-doc = doc.replace('<!--UNDETECTED-->', ', '.join(k for k in sorted(metas()) if re.fullmatch(r'C\d\d[abcd]\d?', k) and not metas()[k].get('expected_detection') and metas()[k].get('confirmed') is not False))
+doc = doc.replace('<!--UNDETECTED-->', ', '.join(k for k in sorted(metas()) if re.fullmatch(r'C\d\d[abcd]\d*', k) and not metas()[k].get('expected_detection') and metas()[k].get('confirmed') is not False))
 kf = json.load(open(f'{V}/known_findings.json'))['findings']
 doc = doc.replace('<!--ND-->', str(len(set(f['commit'] for f in kf if f['status'] == 'fixed'))))
 vi = json.load(open(f'{V}/selftest/variants/index.json')); bi = json.load(open(f'{V}/selftest/benign/index.json'))
 doc = doc.replace('<!--NVAR-->', str(sum(1 for e in vi if e['status'] == 'ok'))).replace('<!--NBEN-->', str(sum(1 for e in bi if e['status'] == 'ok')))
-doc = doc.replace('<!--NMUT-->', str(sum(1 for k in metas() if re.fullmatch(r'C\d\d[abcd]\d?', k))))
+doc = doc.replace('<!--NMUT-->', str(sum(1 for k in metas() if re.fullmatch(r'C\d\d[abcd]\d*', k))))
 doc = re.sub(r'<!--STATS:round=(\w+)-->', lambda m: stats(m.group(1)), doc)
 open(f'{V}/DESIGN.md', 'w').write(doc)
 print('DESIGN.md', len(doc.splitlines()), 'lines;', counts())
